@@ -34,6 +34,12 @@ type cop struct {
 	a, b int
 }
 
+// sop is a call of the sequential prologue of a scenario: thread t's file.
+type sop struct {
+	t  int
+	op cop
+}
+
 func (o cop) String() string {
 	switch o.kind {
 	case opNew:
@@ -151,10 +157,19 @@ func (q *conc) others(i int) (sum res, fault bool) {
 // point of the fake base pool.
 func (q *conc) resetAt(label string) {
 	t := q.x.Current()
+	if t == nil {
+		return
+	}
+	q.mu.Lock()
+	pc := -1
 	for _, th := range q.th {
-		if th.thr == t && t != nil {
-			q.x.ResetLocal(fmt.Sprintf("%d/%s", th.pc, label))
+		if th.thr == t {
+			pc = th.pc
 		}
+	}
+	q.mu.Unlock()
+	if pc >= 0 {
+		q.x.ResetLocal(fmt.Sprintf("%d/%s", pc, label))
 	}
 }
 
@@ -425,6 +440,9 @@ func (q *conc) exec(i int, op cop) {
 
 func (q *conc) run(i int) {
 	th := q.th[i]
+	q.mu.Lock()
+	th.thr = q.x.Current()
+	q.mu.Unlock()
 	for pc, op := range th.script {
 		// Between two calls the thread's local state is its script
 		// position; everything else (file, model, bookkeeping) is part of
@@ -610,6 +628,12 @@ func concScenario(cfg *config, scripts [][]cop, quick, thorough int) *mc.Scenari
 					th.lb, th.ub = th.cur, th.cur
 				}
 			}
+			for _, so := range cfg.concSetup {
+				q.exec(so.t, so.op)
+			}
+			for _, th := range q.th {
+				th.results = nil
+			}
 			// From now on the fakes are scheduling points.
 			if s.dev != nil {
 				s.dev.point = x.Point
@@ -627,7 +651,7 @@ func concScenario(cfg *config, scripts [][]cop, quick, thorough int) *mc.Scenari
 			x.Monitor(prop, q.monitor)
 			for i := range scripts {
 				i := i
-				q.th[i].thr = x.Go(fmt.Sprintf("T%d", i), func() { q.run(i) })
+				x.Go(fmt.Sprintf("T%d", i), func() { q.run(i) })
 			}
 			cur = q
 		},
